@@ -25,7 +25,7 @@ def attribute(run, line, verdict):
             return "C02"          # registers / FP control state / stack alignment
         if k == "Ledger":
             return "C12+C06"      # a resource was not released exactly once by the time ABT_finalize returned
-        if k in ("MigReq", "MigRet", "MigCb", "MigCount") or (k == "Back" and "pool" in ev):
+        if k in ("MigReq", "MigRet", "MigCb", "MigCount", "MigRej") or (k == "Back" and "pool" in ev):
             return "C13"
         if k in ("Prim", "Run", "Obs"):
             return "C11"
